@@ -10,6 +10,8 @@
 From Coq Require Import QArith Qabs List Arith Bool ZArith Lia.
 From BCT Require Import Base.Mat Base.SumQ Model.Threshold Model.Clustering
   Proofs.ClusteringSpec Proofs.Clustering Proofs.ClusteringReduce.
+From BCT Require Model.Distance Model.EfficiencyLocal Model.Assortativity Proofs.DistanceBase
+  Proofs.ReduceDistance Proofs.ReduceEfficiencyLocal Proofs.ReduceAssortativity.
 Import ListNotations.
 Open Scope Q_scope.
 
@@ -59,6 +61,54 @@ Theorem C10_degrees_ignore_weights : forall n W v,
   snd (degrees_dir n W v) == snd (degrees_dir n (binarize W) v).
 Proof. exact degrees_ignore_weights. Qed.
 
+
+(* ---- distance.py / efficiency.py: weighted = binary on 0/1 input ----
+   [rel01 n A W]: A (integer entries, input of the binary routines' models) and W (rational entries, input of
+   the weighted routines' models) are the same 0/1 matrix.  The models are those of Model/Distance.v (tied to
+   the code by C03) and Model/EfficiencyLocal.v; their loops carry fuel n+2, a run that exhausts it returns
+   None, hence "if both return".  Lengths are option Q (None = inf), [DistanceBase.oeq] = inf with inf,
+   finite values equal; diagonal included. *)
+Import Model.Distance Model.EfficiencyLocal Model.Assortativity.
+Import Proofs.ReduceDistance Proofs.ReduceEfficiencyLocal Proofs.ReduceAssortativity.
+
+Theorem C10_distance_wei_bin_eq_bin : forall n A W D B D',
+  rel01 n A W -> distance_wei n W = Some (D, B) -> distance_bin n A = Some D' ->
+  forall i j, (i < n)%nat -> (j < n)%nat ->
+    DistanceBase.oeq (D i j) (olen_of_nat (D' i j)) /\        (* the distance matrices agree entrywise *)
+    (forall k, D' i j = Some k -> B i j = k).                 (* and so does the hop-count matrix where finite *)
+Proof. exact distance_wei_bin_eq_bin. Qed.
+
+Theorem C10_efficiency_wei_bin_eq_bin : forall n A W ew eb,
+  rel01 n A W -> efficiency_wei n W = Some ew -> efficiency_bin n A = Some eb -> ext_eq ew eb.
+Proof. exact efficiency_wei_bin_eq_bin. Qed.
+
+(* local=True: per node and for the returned vectors.  cuberoot is any function that is a cube root of the
+   entries of W and of invert(W) (cbrt_ok); the executable cbrt_exact is one on every 0/1 matrix. *)
+Theorem C10_efficiency_local_wei_bin_eq_bin : forall cbrt n A W lw lb,
+  rel01 n A W -> cbrt_ok cbrt n W -> cbrt_ok cbrt n (invertQ W) ->
+  efficiency_wei_local cbrt n W = Some lw -> efficiency_bin_local n A = Some lb ->
+  forall u, (u < n)%nat -> nth u lw 0 == nth u lb 0.
+Proof. exact efficiency_local_wei_bin_eq_bin. Qed.
+
+Theorem C10_efficiency_local_cbrt_exact : forall n A W lw lb,
+  rel01 n A W -> efficiency_wei_local cbrt_exact n W = Some lw -> efficiency_bin_local n A = Some lb ->
+  forall u, (u < n)%nat -> nth u lw 0 == nth u lb 0.
+Proof.
+  intros n A W lw lb H. destruct (rel01_binary n A W H) as [H1 H2].
+  exact (efficiency_local_wei_bin_eq_bin cbrt_exact n A W lw lb H (cbrt_exact_ok_binary n W H1) (cbrt_exact_ok_binary n _ H2)).
+Qed.
+
+(* ---- core.py: assortativity_wei = assortativity_bin on 0/1 input, every flag (0 = undirected) ----
+   no square root in the code: equality of the rational expressions; None = non-finite float on both sides *)
+Theorem C10_assortativity_wei_bin_eq_bin : forall n A flag, binary n A ->
+  oeq (assortativity_wei n A flag) (assortativity_bin n A flag).
+Proof. exact assortativity_wei_bin_eq_bin. Qed.
+
+(* documented "all connection weights are ignored" (the edge list is `CIJ > 0`: non-negative weights) *)
+Theorem C10_assortativity_bin_ignores_weights : forall n W flag, nonnegm n W ->
+  oeq (assortativity_bin n W flag) (assortativity_bin n (binarize W) flag).
+Proof. exact assortativity_bin_ignores_weights. Qed.
+
 (* ---- non-vacuity ---- *)
 Example C10_nonvacuous :
   let A := of_rows 0 [[0; 1; 1; 0]; [1; 0; 1; 0]; [1; 1; 0; 1]; [0; 0; 1; 0]]%list in
@@ -75,6 +125,43 @@ Proof.
   split; [apply cbrt_exact_ok_binary; exact Hb|]. split; [vm_compute; reflexivity|]. split; vm_compute; reflexivity.
 Qed.
 
+(* a directed 0/1 graph with an unreachable pair: both distance routines return, inf at (2,0), 2 at (0,2);
+   the efficiencies and assortativities are finite and non-trivial *)
+Example C10_distance_nonvacuous :
+  let A := of_rows 0%Z [[0; 1; 0]; [0; 0; 1]; [0; 0; 0]]%Z%list in
+  let W := of_rows 0 [[0; 1; 0]; [0; 0; 1]; [0; 0; 0]]%list in
+  rel01 3 A W /\
+  (exists D B D', distance_wei 3 W = Some (D, B) /\ distance_bin 3 A = Some D' /\
+     D' 0%nat 2%nat = Some 2%nat /\ D' 2%nat 0%nat = None /\ B 0%nat 2%nat = 2%nat) /\
+  (exists e, efficiency_bin 3 A = Some (EFin e) /\ e == 5 # 12) /\
+  (exists e, efficiency_wei 3 W = Some (EFin e) /\ e == 5 # 12).
+Proof.
+  cbv zeta. split.
+  { intros a b Ha Hb. do 3 (destruct a as [|a]; [do 3 (destruct b as [|b]; [vm_compute; tauto|]); exfalso; lia|]). exfalso; lia. }
+  split.
+  { destruct (distance_wei 3 (of_rows 0 [[0; 1; 0]; [0; 0; 1]; [0; 0; 0]]%list)) as [[D B]|] eqn:E1; [|vm_compute in E1; discriminate].
+    destruct (distance_bin 3 (of_rows 0%Z [[0; 1; 0]; [0; 0; 1]; [0; 0; 0]]%Z%list)) as [D'|] eqn:E2; [|vm_compute in E2; discriminate].
+    exists D, B, D'. split; [reflexivity|]. split; [reflexivity|].
+    vm_compute in E1. vm_compute in E2. injection E1 as <- <-. injection E2 as <-. vm_compute. auto. }
+  split; eexists; (split; [vm_compute; reflexivity|vm_compute; reflexivity]).
+Qed.
+
+Example C10_local_assort_nonvacuous :
+  let A := of_rows 0%Z [[0; 1; 1; 0]; [1; 0; 1; 0]; [1; 1; 0; 1]; [0; 0; 1; 0]]%Z%list in
+  let W := of_rows 0 [[0; 1; 1; 0]; [1; 0; 1; 0]; [1; 1; 0; 1]; [0; 0; 1; 0]]%list in
+  rel01 4 A W /\ binary 4 W /\
+  (exists lb, efficiency_bin_local 4 A = Some lb /\ nth 2 lb 0 == 1 # 3) /\
+  (exists lw, efficiency_wei_local cbrt_exact 4 W = Some lw /\ nth 2 lw 0 == 1 # 3) /\
+  (exists r, assortativity_bin 4 W 0 = Some r /\ r == - (5 # 7)) /\
+  (exists r, assortativity_bin 4 (fun i j => (3 # 8) * W i j) 0 = Some r /\ r == - (5 # 7)).
+Proof.
+  cbv zeta. split.
+  { intros a b Ha Hb. do 4 (destruct a as [|a]; [do 4 (destruct b as [|b]; [vm_compute; tauto|]); exfalso; lia|]). exfalso; lia. }
+  split.
+  { intros a b Ha Hb. do 4 (destruct a as [|a]; [do 4 (destruct b as [|b]; [vm_compute; tauto|]); exfalso; lia|]). exfalso; lia. }
+  repeat split; eexists; (split; [vm_compute; reflexivity|vm_compute; reflexivity]).
+Qed.
+
 Print Assumptions C10_cc_wu_bin_eq_bu.
 Print Assumptions C10_cc_wd_bin_eq_bd.
 Print Assumptions C10_trans_wu_bin_eq_bu.
@@ -87,3 +174,9 @@ Print Assumptions C10_cbrt_exact_ok_binary.
 Print Assumptions C10_strengths_bin_eq_degrees.
 Print Assumptions C10_in_out_deg_sym.
 Print Assumptions C10_degrees_ignore_weights.
+Print Assumptions C10_distance_wei_bin_eq_bin.
+Print Assumptions C10_efficiency_wei_bin_eq_bin.
+Print Assumptions C10_efficiency_local_wei_bin_eq_bin.
+Print Assumptions C10_efficiency_local_cbrt_exact.
+Print Assumptions C10_assortativity_wei_bin_eq_bin.
+Print Assumptions C10_assortativity_bin_ignores_weights.
